@@ -8,7 +8,7 @@
      10 UnlowercasedHeaderName 11 DuplicateHeaders 12 WrongCompressedPayloadSize 14 InvalidControlFrame
      15 InvalidDataFrame 16 InvalidHeaderPresent 17 ZeroStreamId 18 ErrTooLongUrl   -- *spdy.Error   *)
 From Coq Require Import List ZArith Bool.
-From Bfe Require Import lib.Val lib.Bytes.
+From Bfe Require Import lib.Val lib.Bytes gen.SpdyLower.
 Import ListNotations.
 Open Scope Z_scope.
 
@@ -23,8 +23,8 @@ Definition zmax (a b : Z) : Z := if a <? b then b else a.
 Definition zmin (a b : Z) : Z := if a <? b then a else b.
 
 (* ---------- strings.ToLower (Go): ASCII fast path, else strings.Map(unicode.ToLower) over UTF-8 with
-   invalid bytes replaced by U+FFFD.  unicode.ToLower is tabulated for the runes the generator uses;
-   any other valid non-ASCII rune gives None (= outside the model). ---------- *)
+   invalid bytes replaced by U+FFFD.  unicode.ToLower is the complete generated table; go_lower never
+   returns None any more (the option is kept for the shape of the definitions). ---------- *)
 Definition is_cont (b : Z) : bool := (128 <=? b) && (b <=? 191).
 (* Some (rune, width) for a valid sequence at the head, None for an invalid first byte (width 1) *)
 Definition utf8_decode (s : bytes) : option (Z * nat) :=
@@ -52,23 +52,20 @@ Definition utf8_decode (s : bytes) : option (Z * nat) :=
     else None
   | [] => None
   end.
-(* UTF-8 of unicode.ToLower(rune) for the tabulated runes *)
-Definition lower_rune (r : Z) : option bytes :=
-  if r =? 201 then Some [195; 169]            (* É -> é *)
-  else if r =? 233 then Some [195; 169]       (* é *)
-  else if r =? 304 then Some [105]            (* İ -> i   : 2 bytes become 1 *)
-  else if r =? 8490 then Some [107]           (* K (Kelvin) -> k : 3 -> 1 *)
-  else if r =? 8491 then Some [195; 165]      (* Å (Angstrom) -> å : 3 -> 2 *)
-  else if r =? 229 then Some [195; 165]       (* å *)
-  else if r =? 197 then Some [195; 165]       (* Å (U+00C5) -> å *)
-  else if r =? 7838 then Some [195; 159]      (* ẞ -> ß : 3 -> 2 *)
-  else if r =? 223 then Some [195; 159]       (* ß *)
-  else if r =? 570 then Some [226; 177; 165]  (* Ⱥ -> ⱥ : 2 -> 3 *)
-  else if r =? 11365 then Some [226; 177; 165]
-  else if r =? 20013 then Some [228; 184; 173] (* 中 *)
-  else if r =? 65533 then Some [239; 191; 189] (* U+FFFD *)
-  else if r =? 775 then Some [204; 135]        (* U+0307 *)
-  else None.
+(* utf8.EncodeRune for a valid scalar value *)
+Definition utf8_enc (r : Z) : bytes :=
+  if r <? 128 then [r]
+  else if r <? 2048 then [192 + r / 64; 128 + r mod 64]
+  else if r <? 65536 then [224 + r / 4096; 128 + (r / 64) mod 64; 128 + r mod 64]
+  else [240 + r / 262144; 128 + (r / 4096) mod 64; 128 + (r / 64) mod 64; 128 + r mod 64].
+(* unicode.ToLower: the complete table of the Go toolchain (gen/SpdyLower.v, regenerated on every run);
+   runes not in the table are their own lower case *)
+Fixpoint lookup_lower (r : Z) (t : list (Z * Z)) : Z :=
+  match t with
+  | [] => r
+  | (a, b) :: t' => if a =? r then b else lookup_lower r t'
+  end.
+Definition lower_rune (r : Z) : option bytes := Some (utf8_enc (lookup_lower r lower_table)).
 Fixpoint lower_u8 (fuel : nat) (s : bytes) {struct fuel} : option bytes :=
   match fuel with
   | O => Some []
